@@ -186,9 +186,14 @@ func genSMSText(c *core.Chooser, f family, target int, r *core.Run) string {
 	// offsets (in units) at which to try to start a multi-unit character
 	want := map[int]bool{}
 	if len(specials) > 0 && c.Prob(3, 4) {
+		// start offsets such that a character of up to 4 units ends before, exactly at, across or right after the boundary
+		span := 6
+		if f == famGSM7U || f == famGSM7P {
+			span = 4
+		}
 		for k := per; k <= target+per; k += per {
 			if c.Prob(2, 3) {
-				want[k+c.Intn(4)-2] = true // -2..+1 around the boundary
+				want[k+1-c.Intn(span)] = true // -(span-2)..+1 around the boundary
 			}
 		}
 		if c.Prob(1, 3) {
@@ -805,13 +810,17 @@ func (h *handset) display(m *lsMsg, parts []airPart, payloads [][]byte) {
 					}
 				}
 				if !decodable {
-					r.Fail("C14", "part-undecodable", m.proto+"/"+famName[f], "escape-pair", "packed part %d of %d does not decode on its own: an escape pair straddles the boundary", i+1, len(payloads))
+					for _, prop := range []string{"C14", "C06"} {
+						r.Fail(prop, "part-undecodable", m.proto+"/"+famName[f], "escape-pair", "packed part %d of %d does not decode on its own: an escape pair straddles the boundary", i+1, len(payloads))
+					}
 					return
 				}
 				pos = next
 			}
 			if !pos[len(text)] {
-				r.Fail("C14", "parts-concat-differs", m.proto+"/"+famName[f], "text", "decoding the packed parts separately and concatenating differs from the message")
+				for _, prop := range []string{"C14", "C06"} {
+					r.Fail(prop, "parts-concat-differs", m.proto+"/"+famName[f], "text", "decoding the packed parts separately and concatenating differs from the message")
+				}
 			}
 			return
 		}
@@ -819,13 +828,18 @@ func (h *handset) display(m *lsMsg, parts []airPart, payloads [][]byte) {
 		for i, p := range payloads {
 			t, pok := refDecode(f, p)
 			if !pok {
-				r.Fail("C14", "part-undecodable", m.proto+"/"+famName[f], boundaryKind(f, p, payloads, i), "part %d of %d does not decode on its own: a character's encoding straddles the boundary (%s … %s)", i+1, len(payloads), hexN(p[:min(4, len(p))], 4), hexN(p[max(0, len(p)-4):], 4))
+				// C06 reads "decoding the parts in order": a part that cannot be decoded alters the text a receiver shows
+				for _, prop := range []string{"C14", "C06"} {
+					r.Fail(prop, "part-undecodable", m.proto+"/"+famName[f], boundaryKind(f, p, payloads, i), "part %d of %d does not decode on its own: a character's encoding straddles the boundary (%s … %s)", i+1, len(payloads), hexN(p[:min(4, len(p))], 4), hexN(p[max(0, len(p)-4):], 4))
+				}
 				return
 			}
 			sb.WriteString(t)
 		}
 		if sb.String() != text {
-			r.Fail("C14", "parts-concat-differs", m.proto+"/"+famName[f], "text", "decoding the parts separately and concatenating differs from the message")
+			for _, prop := range []string{"C14", "C06"} {
+				r.Fail(prop, "parts-concat-differs", m.proto+"/"+famName[f], "text", "decoding the parts separately and concatenating differs from the message")
+			}
 		}
 	}
 }
@@ -910,6 +924,15 @@ func parseSideChecks(r *core.Run) {
 			wantValid = false
 			near := [][]byte{{5, 0, 4, 1, 2, 1}, {5, 1, 3, 1, 2, 1}, {4, 0, 3, 1, 2, 1}, {6, 8, 4, 1, 2, 3}, {6, 8, 3, 1, 2, 3, 4}, {6, 0, 4, 1, 2, 3, 4}, {5, 0, 3, 1, 2}, {5, 0, 3}, {}, {0, 0, 0, 0, 0, 0, 0}}
 			s = append([]byte(nil), near[c.Intn(len(near))]...)
+			if c.Bool() {
+				// systematic: every combination of the three magic octets except the two valid ones
+				b0 := []byte{4, 5, 6, 7, 0x0b, 0}[c.Intn(6)]
+				b1 := []byte{0, 8, 1, 5}[c.Intn(4)]
+				b2 := []byte{3, 4, 0, 8}[c.Intn(4)]
+				if !(b0 == 5 && b1 == 0 && b2 == 3) && !(b0 == 6 && b1 == 8 && b2 == 4) {
+					s = []byte{b0, b1, b2, byte(c.Intn(256)), byte(c.Intn(4)), byte(c.Intn(4)), byte(c.Intn(4))}
+				}
+			}
 			// "06 08 04" with exactly six octets is a near miss; with a seventh octet it would be a valid header
 			if len(s) >= 6 && !(s[0] == 6 && s[1] == 8 && s[2] == 4 && len(s) == 6) {
 				s = append(s, body...)
